@@ -391,6 +391,46 @@ def run(ctx):
                 else:
                     ctx.fail("C04-R2", ct.path, "branch mapping", "TreeNode{yes <- %s, no <- %s, question <- %s}" % (sorted(ys), sorted(ns), sorted(qs)), cm.loc_of(st["span"]))
         ctx.anchor("C04-R2", "TreeNode::Node literals in convert_tree", n, 1, ct.loc())
+        # a child written as a node id is found by that id: the id -> row table is built from
+        # (node.id, position) of every row, and both children go through it.  Row order and
+        # numbering are free in the format, so the id is not a row number.
+        from ..expr import deep_defs
+        nlit = 0
+        for bb, i, st in ct.iter_stmts():
+            if not (st["k"] == "assign" and st["rv"]["k"] == "aggregate" and st["rv"]["kind"].get("variant") == "Node" and str(st["rv"]["kind"].get("def", "")).endswith("tree::TreeNode")):
+                continue
+            nlit += 1
+            e = eb.at(bb, i).rvalue(st["rv"])
+            fld = dict(zip(e[3], e[2]))
+            for child in ("yes", "no"):
+                v = fld.get(child)
+                cands = [v] + deep_defs(eb, v) if v is not None else []
+                # the lookup may sit in a closure called on the child (`resolve(&node.yes)`)
+                from ..expr import closure_call_values
+                for x in list(cands):
+                    for y in walk(x):
+                        if y[0] == "call" and y[1] in p.bodies:
+                            cands.extend(closure_call_values(p, y))
+                node_arm = [x for x in cands for y in walk(x) if y[0] == "call" and y[1].endswith("BTreeMap::<K, V, A>::get") and len(y[2]) == 2]
+                good = False
+                for x in cands:
+                    for y in walk(x):
+                        if y[0] == "call" and y[1].endswith("BTreeMap::<K, V, A>::get") and len(y[2]) == 2:
+                            table, key = y[2]
+                            ks = show(key)
+                            tbl_ok = False
+                            for z in walk(table):
+                                if z[0] == "agg" and z[1].startswith("closure:"):
+                                    cbz = p.bodies.get(z[1][len("closure:"):])
+                                    rz = ExprBuilder(cbz).local(0) if cbz is not None else None
+                                    if rz is not None and rz[0] == "agg" and rz[1] == "tuple" and len(rz[2]) == 2 and show(rz[2][0]).endswith(".1.id") and show(rz[2][1]).endswith(".0") and "enumerate(orig_tree.nodes)" in show(table):
+                                        tbl_ok = True
+                            if tbl_ok and ks.endswith(".%s as Node).0" % child):
+                                good = True
+                if good:
+                    ctx.ok("C04-R2", "child `%s` written as a node id is located through the (node.id -> row) table" % child, cm.loc_of(st["span"]))
+                else:
+                    ctx.fail("C04-R2", ct.path, "node reference " + child, "the `%s` child of an inner node, when it names a node id, is not looked up in the table built from every row's (id, position): ids are not row numbers (rows may be written in any order, with gaps)" % child, cm.loc_of(st["span"]))
         # the bare-leaf shortcut drops the node's question: legitimate only for the pseudo node of a
         # question-less tree, which the text parser writes with yes == no
         early = []
